@@ -2,8 +2,8 @@
    Only statements; proofs are in proofs/C06_*.v.  Model: model/Multipart.v
    (streaming parser, fixes F6+F7 applied), spec: model/MultipartRef.v ([ref],
    the one-piece scanner built on [findb] only, and [wf_prefix]). *)
-From Verif Require Import lib.Base lib.Str gen.Gen model.MultipartRef model.Multipart
-  proofs.C06_pattern proofs.C06_model_pins proofs.C06_core proofs.C06_global proofs.C06_wf proofs.C06_arbitrary.
+From Verif Require Import lib.Base lib.Str gen.Gen model.Stream model.MultipartRef model.Multipart model.MultipartFeed
+  proofs.C06_pattern proofs.C06_model_pins proofs.C06_core proofs.C06_global proofs.C06_wf proofs.C06_arbitrary proofs.C06_feed.
 
 (* the regular expression re-implemented by Multipart.hsearch is the one in the source *)
 Theorem C06_end_headers_regex_pinned :
@@ -136,6 +136,22 @@ Theorem C06_split_independent_pairwise :
 Proof. exact split_independent_pairwise. Qed.
 Print Assumptions C06_split_independent_pairwise.
 
+(* ---- the division into read buffers as the server produces it ---- *)
+
+(* _body_read feeds the parser with the parts _iter_body yields (model/MultipartFeed.v
+   over model/Stream.v: every read may return fewer bytes than asked).  For EVERY
+   fragmentation schedule, every buffer size (max_memfile_size) > 0 and every declared
+   Content-Length the parse result is the reference result on the first
+   Content-Length bytes of the stream: it does not depend on the schedule or on the
+   buffer size, in particular not on whether the body fits into one buffer. *)
+Theorem C06_result_independent_of_reads :
+  forall (B data : bytes) (sc : list nat) (buf : nat) (cl : Z),
+    0 < buf ->
+    wf_prefix B (firstn (Z.to_nat cl) data) ->
+    markup_stream B data sc buf cl = Some (ref_obs B (firstn (Z.to_nat cl) data)).
+Proof. exact reads_independent. Qed.
+Print Assumptions C06_result_independent_of_reads.
+
 (* ---- arbitrary input: data sections are closed by a real, first delimiter ---- *)
 
 (* For EVERY boundary without CR, ANY bytes and ANY division into chunks (no
@@ -265,4 +281,12 @@ Example C06_any_input_nonvacuous :
   markup_chunks [66]%N [[45;45;66;13;10;97;13;10;10]; [13;10;100;100;100;13;10;45;45;66;45;45]]%N
   = ([(Data, 0, 0); (Headers, 5, 7); (Data, 11, 14)]%Z, None)
   /\ wf_prefixb [66]%N [45;45;66;13;10;97;13;10;10;13;10;100;100;100;13;10;45;45;66;45;45]%N = false.
+Proof. vm_compute. split; reflexivity. Qed.
+
+(* short reads, a buffer larger than the body, Content-Length beyond the data (early EOF) *)
+Example C06_reads_nonvacuous :
+  let data := [45;45;66;13;10;65;58;32;98;13;10;13;10;100;97;116;97;13;10;45;45;66;45;45;13;10]%N in
+  body_parts data [2;0;6] 1000 40 =
+    Some [[45;45;66]; [13]; [10;65;58;32;98;13;10]; [13;10;100;97;116;97;13;10;45;45;66;45;45;13;10]]%N
+  /\ markup_stream [66]%N data [2;0;6] 1000 40 = Some ([(Data, 0, 0); (Headers, 5, 9); (Data, 13, 17)]%Z, None).
 Proof. vm_compute. split; reflexivity. Qed.
